@@ -76,6 +76,15 @@ def stages(tier, rng, only=None):
         grids.datasets(3, 2)[::4] + [ac.cyclic_dataset(rng, 3, 5) for _ in range(ncyc // 2)], EXACT, SCHEMES, rng)
         + ac.reuse_mutate_cases([ac.cyclic_dataset(rng, 3, 5) for _ in range(ncyc // 3)],
                                 ["Exact(opt)", "Exact(noopt)"], SCHEMES, rng, env="standin"), _nt))
+    ext = grids.datasets(3, 2)[::5] + [ac.cyclic_dataset(rng, 3, 5, incomplete=k % 3 == 2)
+                                       for k in range(60 if tier == "quick" else 600)]
+    out.append(ac.stage("microscopic_penalties", PID, lambda: ac.scaled_cases(ext, EXACT, SCHEMES, 40), _nt))
+    out.append(ac.stage("gigantic_penalties", PID, lambda: ac.scaled_cases(ext, EXACT, SCHEMES, -60), _nt))
+    out.append(ac.stage("eleven_plus", PID, lambda: ac.cases(
+        [ac.eleven_plus_dataset(rng) for _ in range(6 if tier == "quick" else 40)],
+        ["ExactPulp", "Exact(opt)", "Exact(noopt)", "ExactCplex(opt)", "ExactOptim1"], SCHEMES, flags=(1,)), _nt))
+    out.append(ac.stage("sparse_cycles", PID, lambda: _cases(
+        [ac.cycle_plus_sparse(rng) for _ in range(40 if tier == "quick" else 400)], rng), _nt))
     if tier == "quick":
         out.append(ac.stage("random", PID, lambda: _cases([ac.random_dataset(rng, 6, 5, nmin=3) for _ in range(150)],
                                                           rng, schemes=SCHEMES + ac.grid_sample(rng, 6)), _nt))
